@@ -18,7 +18,7 @@ EXPLANATION = (
     "writer thread propagates compression and sink errors with `?`."
     " (R5) the own-crate closure of every staging Write::write impl reaches the sink only through write_all: a raw sink flush()/write() whose Interrupted escapes write() after bytes were staged makes write_all duplicate them."
     " (R6) a function that creates a file, wraps it in a buffering or compressing writer and returns io::Result<()> passes a flush/finish/try_finish/shutdown on every success path (found the genuine defect F23 in six index fs::write helpers, repaired)."
-    " (R3, async BGZF) poll_shutdown drains the sink, writes the EOF block BEFORE anything shuts the inner writer down, and shuts it down (or flushes it) afterwards (genuine defect F36, repaired; the earlier form of this rule demanded the defective poll_close). (R7) a BufWriter constructed in a function and not handed back to the caller (ownership flow) is flushed on every path to a success exit.")
+    " (R3, async BGZF) poll_shutdown drains the sink, writes the EOF block BEFORE anything shuts the inner writer down, and shuts it down (or flushes it) afterwards (genuine defect F36, repaired; the earlier form of this rule demanded the defective poll_close). (R7) a BufWriter constructed in a function and not handed back to the caller (ownership flow) is flushed on every path to a success exit. (R3, alignment writers) every impl of alignment::io::Write::finish reaches a flush / finisher; the only un-repaired no-op is the BAM writer (known finding F10); the SAM writer's was genuine defect F50, repaired.")
 ASSUMPTIONS = [
     "std::io::Write::write_all / tokio write_all loop over short writes and retry Interrupted (library contract)",
     "errors can only be lost by discarding a Result value or by matching its Err arm into a success path; panics are C15",
